@@ -1133,4 +1133,129 @@ theorem acyclic_of_check (nodes : List (Nat × Node)) (rank : Nat → Nat) (h : 
     rw [hn] at this
     simp at this
 
+
+/-! ### the answer does not depend on the fuel -/
+
+theorem mapSt_congr_of_ne_oof {σ α β : Type} (g g' : α → σ → Out β × σ)
+    (h : ∀ a s, (g a s).1 ≠ .oof → g' a s = g a s) :
+    ∀ (l : List α) (s : σ), (mapSt g l s).1 ≠ .oof → mapSt g' l s = mapSt g l s := by
+  intro l
+  induction l with
+  | nil => intro s _; rfl
+  | cons a as ih =>
+    intro s hne
+    have key : (g a s).1 ≠ .oof := by
+      intro h0; apply hne; simp only [mapSt, h0]
+    have e1 := h a s key
+    cases h1 : (g a s).1 with
+    | ok b =>
+      have key2 : (mapSt g as (g a s).2).1 ≠ .oof := by
+        intro h0; apply hne; simp only [mapSt, h1, h0]
+      have e2 := ih _ key2
+      simp only [mapSt, e1, e2]
+    | err => simp only [mapSt, e1, h1]
+    | panic => simp only [mapSt, e1, h1]
+    | oof => exact absurd h1 key
+
+/-- the answer does not depend on the fuel once there is enough of it -/
+theorem cloneRef_fuel_mono (src : Src) : ∀ (f : Nat) (e : Edge) (st : St),
+    (cloneRef f src e st).1 ≠ .oof → cloneRef (f + 1) src e st = cloneRef f src e st := by
+  intro f
+  induction f with
+  | zero => intro e st h; exact absurd rfl h
+  | succ f ih =>
+    intro e st hne
+    have hm : ∀ (l : List Edge) (s : St), (mapSt (cloneRef f src) l s).1 ≠ .oof →
+        mapSt (cloneRef (f + 1) src) l s = mapSt (cloneRef f src) l s :=
+      mapSt_congr_of_ne_oof (cloneRef f src) (cloneRef (f + 1) src) (fun a s h => ih a s h)
+    -- whenever the kids' traversal is reached, it did not run out of fuel
+    rw [cloneRef.eq_2] at hne
+    rw [cloneRef.eq_2, cloneRef.eq_2 _ _ _ f]
+    cases hlk : lk st.map e.tgt with
+    | some n =>
+      simp only [hlk] at hne ⊢
+      cases hkd : e.kind with
+      | prim => rfl
+      | ref => rfl
+      | rc =>
+        simp only [hkd] at hne ⊢
+        by_cases hrc : n ∈ st.rcrefs
+        · simp only [hrc, if_true]
+        · simp only [hrc, if_false] at hne ⊢
+          by_cases hp : e.tgt ∈ st.pending
+          · simp only [hp, if_true]
+          · simp only [hp, if_false] at hne ⊢
+            cases hs : src e.tgt with
+            | none => rfl
+            | some node =>
+              simp only [hs] at hne ⊢
+              have hno : (mapSt (cloneRef f src) (node.kids .rc) (st.push e.tgt)).1 ≠ .oof := by
+                intro h0; apply hne; simp only [h0]
+              rw [hm _ _ hno]
+    | none =>
+      simp only [hlk] at hne ⊢
+      by_cases hp : e.tgt ∈ st.pending
+      · simp only [hp, if_true]
+      · simp only [hp, if_false] at hne ⊢
+        cases hs : src e.tgt with
+        | none => rfl
+        | some node =>
+          simp only [hs] at hne ⊢
+          have hno : (mapSt (cloneRef f src) (node.kids e.kind) (st.push e.tgt)).1 ≠ .oof := by
+            intro h0; apply hne; simp only [h0]
+          rw [hm _ _ hno]
+
+
+theorem cloneRef_fuel_le (src : Src) (f f' : Nat) (hle : f ≤ f') (e : Edge) (st : St)
+    (h : (cloneRef f src e st).1 ≠ .oof) : cloneRef f' src e st = cloneRef f src e st := by
+  induction hle with
+  | refl => rfl
+  | step _ ih => rw [cloneRef_fuel_mono src _ e st (by rw [ih]; exact h), ih]
+
+theorem cloneKids_fuel_mono (src : Src) (f : Nat) (l : List Edge) (st : St)
+    (h : (cloneKids f src l st).1 ≠ .oof) : cloneKids (f + 1) src l st = cloneKids f src l st :=
+  mapSt_congr_of_ne_oof (cloneRef f src) (cloneRef (f + 1) src) (fun a s hh => cloneRef_fuel_mono src f a s hh) l st h
+
+theorem cloneOp_fuel_mono (src : Src) (f : Nat) (old : ResTable Entry) (op : OpM) (s : PSt)
+    (h : (cloneOp f src old op s).1 ≠ .oof) : cloneOp (f + 1) src old op s = cloneOp f src old op s := by
+  cases op with
+  | other t => rfl
+  | inline kids =>
+    simp only [cloneOp] at h ⊢
+    have hno : (cloneKids f src kids s.2).1 ≠ .oof := by intro h0; apply h; simp only [h0]
+    rw [cloneKids_fuel_mono src f kids s.2 hno]
+  | use k name =>
+    simp only [cloneOp] at h ⊢
+    by_cases hh : handled k = true
+    · simp only [hh, if_true] at h ⊢
+      cases hnew : resGet s.1 k name with
+      | some v => rfl
+      | none =>
+        simp only [hnew] at h ⊢
+        cases hold : resGet old k name with
+        | none => rfl
+        | some ent =>
+          simp only [hold] at h ⊢
+          have hno : (cloneKids f src ent.kids s.2).1 ≠ .oof := by intro h0; apply h; simp only [h0]
+          rw [cloneKids_fuel_mono src f ent.kids s.2 hno]
+    · simp [hh]
+
+theorem clonePage_fuel_mono (src : Src) (f : Nat) (p : PageM) (st : St)
+    (h : (clonePage f src p st).1 ≠ .oof) : clonePage (f + 1) src p st = clonePage f src p st := by
+  simp only [clonePage] at h ⊢
+  have hops : (cloneOps f src p.res p.ops st).1 ≠ .oof := by intro h0; apply h; simp only [h0]
+  have e1 : cloneOps (f + 1) src p.res p.ops st = cloneOps f src p.res p.ops st :=
+    mapSt_congr_of_ne_oof (cloneOp f src p.res) (cloneOp (f + 1) src p.res)
+      (fun a s hh => cloneOp_fuel_mono src f p.res a s hh) p.ops ([], st) hops
+  rw [e1]
+  cases hr : (cloneOps f src p.res p.ops st).1 with
+  | ok us =>
+    simp only [hr] at h ⊢
+    have hk : (cloneKids f src p.rest (cloneOps f src p.res p.ops st).2.2).1 ≠ .oof := by
+      intro h0; apply h; simp only [h0]
+    rw [cloneKids_fuel_mono src f p.rest _ hk]
+  | err => rfl
+  | panic => rfl
+  | oof => exact absurd hr hops
+
 end Import
